@@ -132,6 +132,31 @@ def r_lexer_none_paths(r, prog):
     r.floor(4)
 
 
+def r_every_return_progresses(r, prog):
+    led = json.load(open(os.path.join(VERIF, 'ledgers', 'loops.json')))
+    for e in led['every_return_progresses']:
+        f = prog.fn(e['fn'])
+        through = {c.bb for c in f.calls() if c.name() in e['consumers']} | _field_write_blocks(f, set(e['state_fields']))
+        rets = f.return_blocks()
+        # every definition of the return place must be preceded by progress (results computed before consuming are fine
+        # as long as the function cannot return without progress)
+        if must_pass(f, 0, rets, through):
+            r.ok('%s: no result without consumed input or a state change' % f.path, e['reason'])
+        else:
+            # name an offending assignment of the return place for the report
+            bad = None
+            open_blocks = f.reachable(0, blocked=through)
+            for d in f.defs_of(0):
+                if d[1] in open_blocks:
+                    bad = d
+                    break
+            where = f.span_of(f.blocks[bad[1]]['s'][bad[2]].get('sp')) if bad and bad[0] == 'assign' else f.span
+            r.finding('result-without-progress:%s' % f.path, where,
+                      '%s can return a token or error on a path that neither consumed input (%s) nor changed the lexer mode: '
+                      'a parser that keeps pulling tokens (error recovery) receives it forever' % (f.path, '/'.join(e['consumers'])))
+    r.floor(3)
+
+
 def r_lexer_eof_state(r, prog):
     led = json.load(open(os.path.join(VERIF, 'ledgers', 'loops.json')))
     for e in led['eof_state_change']:
@@ -181,6 +206,11 @@ def r_prepatch_definition(r, prog):
     for pr in pre:
         if pr not in prog.fns:
             raise AnchorMissing(pr)
+    # the generated parsers call back into local impls of lalrpop_util's traits (reduce -> grammar actions) and the lexers' Iterator impls
+    cb = [m for m in panics.roots_foreign_impls(prog, ('slicec',)) if m.startswith('<slicec::parsers::')]
+    if len(cb) < 10:
+        raise AnchorMissing('parser callback impls (found %d)' % len(cb))
+    pre = pre + cb
     reach = prog.reachable_fns(pre)
     parent = dict(prog.last_parent)
     for t in targets:
@@ -288,6 +318,7 @@ def run(ctx):
     ctx.run_rule('C01.3a', 'T9', 'every loop consumes on every path round it, or is in the loop ledger with its progress calls', r_loops, prog)
     ctx.run_rule('C01.3b', 'T9', 'lexers: no token at end of buffer without a state change', r_lexer_eof_state, prog)
     ctx.run_rule('C01.3c', 'T9', 'token functions yield "nothing" only after consuming input', r_lexer_none_paths, prog)
+    ctx.run_rule('C01.3e', 'T9', 'token functions never produce a result without consumed input or a mode change', r_every_return_progresses, prog)
     ctx.run_rule('C01.4a', 'T2', 'phases run only through apply/apply_unsafe on the no-errors edge', gating.r_phase_gating, prog)
     ctx.run_rule('C01.4b', 'T1', 'TypeRef::definition is not reachable before type patching', r_prepatch_definition, prog)
     ctx.run_rule('C01.5', 'T3', 'parse errors become diagnostics on every path', r_parse_errors, prog)
